@@ -186,6 +186,19 @@ func (h *harness) listener() *jsync.SelectiveListener {
 				h.mu.Lock()
 				h.ops[op]++
 				h.mu.Unlock()
+				if op == jsync.OpFetch {
+					// directed interleaving: the controller changes the source while this fetcher holds
+					// the block it has just been handed
+					if hk := h.src.fetchHook.Swap(nil); hk != nil {
+						hk.entered <- int64(n)
+						wd := time.NewTimer(60 * time.Second) // watchdog only
+						select {
+						case <-hk.release:
+						case <-wd.C:
+						}
+						wd.Stop()
+					}
+				}
 				return
 			}
 			h.drain()
@@ -341,6 +354,18 @@ func genCase(rng *rand.Rand, idx int, quick bool) caseCfg {
 		c.CleanHeader, c.MinFork = true, 0
 		c.Script = []action{{After: 30 + rng.IntN(60), Kind: "reorg", Rel: true, Depth: 1 << 20, LenMode: -1, K: 0}}
 		return c
+	case 14:
+		// The node follows the tip; the source switches to a fork one block longer and returns to
+		// the chain it had orphaned (one or two blocks longer than before) while a fetcher of the
+		// node holds a block of the fork.
+		c.Template = "there-and-back:tip"
+		c.CleanHeader, c.MinFork = true, 1
+		c.InitialLen = 5 + rng.IntN(8)
+		c.Script = []action{{Kind: "sync"}, {After: 1 + rng.IntN(4), Kind: "there-and-back", Rel: true, Depth: 1 + rng.IntN(2), K: rng.IntN(2)}}
+		if rng.IntN(2) == 0 {
+			c.Script = append(c.Script, action{After: 20 + rng.IntN(30), Kind: "extend", K: 1})
+		}
+		return c
 	case 11, 13:
 		// The node follows the tip. The source adds 1-3 blocks and, while the node is inside the
 		// store callback of the first of them (announcements not yet made), replaces a suffix
@@ -435,6 +460,9 @@ func genCase(rng *rand.Rand, idx int, quick bool) caseCfg {
 			a.After = 1 + rng.IntN(30)
 		case x == 4 && i > 0:
 			a.Kind, a.Depth, a.LenMode, a.K = "cbreorg", rng.IntN(4), rng.IntN(3)-1, rng.IntN(1<<16)
+			if rng.IntN(3) == 0 {
+				a.Kind, a.Rel, a.Depth = "there-and-back", rng.IntN(2) == 0, rng.IntN(4)
+			}
 		default:
 			a.Kind = "reorg"
 			a.Rel = rng.IntN(3) != 0
@@ -852,7 +880,7 @@ func runCase(t *testing.T, r *lib.Run, idx int) {
 	for _, a := range ctl.log {
 		kinds[a.Kind]++
 		r.Count("source_change."+a.Kind, 1)
-		if a.Kind == "reorg" || a.Kind == "attack" || a.Kind == "reorg-inside-store-callback" {
+		if a.Kind == "reorg" || a.Kind == "attack" || a.Kind == "reorg-inside-store-callback" || a.Kind == "return-to-orphaned-chain" {
 			switch d := int64(a.Fork) - (a.LocalAt + 1); {
 			case d > 0:
 				r.Count("reorg.fork_point_above_local_head", 1)
